@@ -24,7 +24,13 @@ func VfN_tc_decl() int { return len(vfTcElems) * len(vfTcOps) }
 func VfH_tc_decl() {
 	k := vfCase()
 	el, op := vfTcElems[k/len(vfTcOps)], vfTcOps[k%len(vfTcOps)]
-	vfNote("case:" + el + "/" + op)
+	name := []byte(el + "/" + op)
+	for i, ch := range name {
+		if ch == ' ' {
+			name[i] = '_'
+		}
+	}
+	vfNote("case:" + string(name))
 	head, tail := "type T :struct {\n\ta: ", "\n}\n\nfunc main {\n\tx, y: T\n\t"+op+"\n}\n"
 	var src []byte
 	src = append(src, head...)
